@@ -70,6 +70,24 @@ fn gamma(a: f64) -> f64 {
     }
 }
 
+fn float_factorial(x: f64) -> f64 {
+    if x >= 0.0 && (x % 1.0) == 0.0 {
+        // n! of a whole number: the product itself, which stays finite up to 170!
+        if x > 170.0 {
+            return f64::INFINITY;
+        }
+        let mut factorial_result = 1.0;
+        for i in 2..=(x as usize) {
+            #[cfg(feature = "verif_hooks")]
+            crate::verif_hooks::tick(crate::verif_hooks::Point::EvalLoop);
+            factorial_result *= i as f64;
+        }
+        factorial_result
+    } else {
+        gamma(x + 1.0)
+    }
+}
+
 pub fn eval(expr: Node) -> Result<Number, Box<dyn error::Error>> {
     #[cfg(feature = "verif_hooks")]
     crate::verif_hooks::tick(crate::verif_hooks::Point::EvalEntry);
@@ -233,10 +251,10 @@ pub fn eval(expr: Node) -> Result<Number, Box<dyn error::Error>> {
                         }
                         Ok(Number::Integer(factorial_result))
                     } else {
-                        Ok(Number::Float(gamma((n as f64) + 1.0)))
+                        Ok(Number::Float(float_factorial(n as f64)))
                     }
                 }
-                Number::Float(n) => Ok(Number::Float(gamma(n + 1.0))),
+                Number::Float(n) => Ok(Number::Float(float_factorial(n))),
             }
         }
         LambertW(expr) => {
